@@ -298,6 +298,59 @@ func runC12(r *vk.Run) {
 			c.Nontrivial(fmt.Sprintf("nested|%d|%s", c.Idx, text))
 		}
 	})
+	// operands that do not arrive ordered by grouping key: the result of `or` (left samples followed by
+	// right-only ones), of `unless`, of a nested operation; matching is by label set, not by position
+	r.Phase("unordered", r.N(300, 40000), func(c *vk.Case) {
+		rng := c.Rng
+		steps := rng.Range(2, 5)
+		recs := genBinRecs(rng, steps, vk.Pick(rng, []string{"overlap", "overlap", "disjoint", "twins"}))
+		env := &MEnv{Recs: recs, Msg: env0.Msg, UnwrapKeeps: env0.UnwrapKeeps, CmpFalse: env0.CmpFalse, CmpFalseBool: env0.CmpFalseBool}
+		left, right := MExpr(c12Leaf("l|both")), MExpr(c12Leaf("r|both"))
+		union := func(a, b MExpr) MExpr { return &Paren{X: &BinOp{Op: "or", L: a, R: b}} }
+		op := vk.Pick(rng, c12Ops)
+		b := &BinOp{Op: op, Bool: isCmp(op) && rng.Bool()}
+		switch rng.Intn(5) {
+		case 0:
+			b.L, b.R = union(left, right), right
+		case 1:
+			b.L, b.R = union(right, left), left
+		case 2:
+			b.L, b.R = union(left, right), union(right, left)
+		case 3:
+			b.L, b.R = union(&Paren{X: &BinOp{Op: "unless", L: right, R: left}}, left), right
+		default:
+			b.L, b.R = &Paren{X: &BinOp{Op: "*", L: union(left, right), R: &Lit{V: 1}}}, union(right, left)
+		}
+		text := b.Text()
+		p := EvalP{Start: metricT0 + 4e9, End: metricT0 + int64(steps)*4e9, Step: 4 * time.Second}
+		res, err := evalQuery(&MemQuerier{Recs: recs, ErrAfter: -1}, text, p)
+		c.Eval(1)
+		det := func() map[string]any { return map[string]any{"query": text, "records": recs, "params": p, "result": res} }
+		if err != nil {
+			c.Fail("", "query failed: "+text+": "+err.Error(), det())
+			return
+		}
+		var m string
+		if isCmp(op) {
+			m = compareComparison(b, env, p, res)
+		} else {
+			m = compareMetric(b, env, p, res, 1e-12)
+		}
+		if m != "" {
+			c.Fail("", text+": "+m, det())
+			return
+		}
+		matched := 0
+		for _, T := range gridTimes(p) {
+			matched += len(b.Eval(env, T).M)
+		}
+		c.Count("unordered_operand_points", matched)
+		if matched > 0 {
+			c.Nontrivial(fmt.Sprintf("unordered|%d|%s", c.Idx, text))
+		}
+	})
+	r.Require("unordered_operand_points", 500)
+
 	// vector(N) as an operand: a constant series that exists at every step. Each step's result must be
 	// computed from the constant, not from what an earlier step left behind.
 	r.Phase("vectorfn", r.N(300, 40000), func(c *vk.Case) {
@@ -311,7 +364,36 @@ func runC12(r *vk.Run) {
 		op := vk.Pick(rng, c12Ops)
 		b := &BinOp{Op: op, Bool: isCmp(op) && rng.Bool()}
 		shape := ""
-		switch rng.Intn(7) {
+		agg := func() MExpr { return &VecAgg{Op: vk.Pick(rng, []string{"sum", "count", "max"}), Inner: left} } // one series with the empty label set
+		aggBy := func() MExpr { // the empty label set reached through a grouping clause
+			a := &VecAgg{Op: vk.Pick(rng, []string{"sum", "count", "min"}), Inner: left, Grouped: true, GroupFirst: rng.Bool()}
+			if rng.Bool() {
+				a.Group = []string{"nosuch"}
+			}
+			return a
+		}
+		switch rng.Intn(12) {
+		case 10:
+			b.L, b.R, shape = agg(), aggBy(), "sum(X) op sum by () (X)"
+			if rng.Bool() {
+				b.L, b.R = b.R, b.L
+			}
+		case 11:
+			b = &BinOp{Op: vk.Pick(rng, []string{"or", "and", "unless"}), L: aggBy(), R: vk.Pick(rng, []MExpr{agg(), vec()})}
+			op = b.Op
+			shape = "sum by () (X) and/or/unless {sum(X), vector}"
+		case 7:
+			// the empty label set is one label set, whoever produced it
+			b.L, b.R, shape = agg(), vec(), "sum(X) op vector"
+		case 8:
+			b.L, b.R, shape = vec(), agg(), "vector op sum(X)"
+		case 9:
+			b = &BinOp{Op: vk.Pick(rng, []string{"or", "and", "unless"}), L: agg(), R: vec()}
+			op = b.Op
+			if rng.Bool() {
+				b.L, b.R = b.R, b.L
+			}
+			shape = "sum(X) and/or/unless vector"
 		case 0:
 			b.L, b.R, shape = vec(), lit(), "vector op literal"
 		case 1:
@@ -352,7 +434,7 @@ func runC12(r *vk.Run) {
 		c.Nontrivial(fmt.Sprintf("vectorfn|%d|%s", c.Idx, text))
 	})
 	r.Require("vectorfn_points", 800)
-	r.Require("distinct:vectorfn_shapes", 7)
+	r.Require("distinct:vectorfn_shapes", 12)
 	r.Require("nested_nan_or_inf_operands", 100)
 	r.Require("distinct:op_x_shape", int64(len(combos)))
 	r.Require("nan_results", 20)
